@@ -50,7 +50,8 @@ type rig struct {
 	inv    map[int64]int // goroutine -> invocation id
 	gated  bool          // gates park (G mode) until freed
 	parked map[int64]*park
-	nbody  map[int]int // invocation -> bodies begun
+	nbody  map[int]int             // invocation -> bodies begun
+	ctxs   map[int]context.Context // invocation -> ctx of its latest body (gated mode)
 }
 
 var gateNames = map[string]string{
@@ -64,7 +65,7 @@ var eventNames = map[string]string{
 
 func newRig(conc int64, period time.Duration, gated bool) *rig {
 	r := &rig{mgr: NewBackgroundTaskManager(conc, period), base: time.Now(), inv: map[int64]int{},
-		gated: gated, parked: map[int64]*park{}, nbody: map[int]int{}}
+		gated: gated, parked: map[int64]*park{}, nbody: map[int]int{}, ctxs: map[int]context.Context{}}
 	verifhook.SetEvent(func(name string, kv ...any) {
 		if len(kv) == 0 || kv[0] != any(r.mgr) {
 			return
@@ -174,6 +175,11 @@ func freeRun(t *testing.T, conc int64, period time.Duration, rng *rand.Rand, w *
 			linger[j] = us(12000) // reacts to cancellation this late
 		}
 		delay := us(3000)
+		// some invocations get a SHORT timeout: their bodies run past it and notice ctx.Done() late
+		timeout := 24 * time.Hour
+		if rng.Intn(5) < 2 {
+			timeout = time.Duration(500+rng.Intn(3500)) * time.Microsecond
+		}
 		body := func(ctx context.Context) {
 			r.mu.Lock()
 			r.nbody[i]++
@@ -194,7 +200,7 @@ func freeRun(t *testing.T, conc int64, period time.Duration, rng *rand.Rand, w *
 			r.mu.Lock()
 			r.inv[verifhook.Goid()] = i
 			r.mu.Unlock()
-			r.mgr.InvokeBackgroundTask(body, 24*time.Hour)
+			r.mgr.InvokeBackgroundTask(body, timeout)
 			r.log(tev{Ev: "Return", I: i})
 			close(returned[i-1])
 		}()
@@ -431,6 +437,7 @@ func gatedWalk(t *testing.T, j gjob, walk []gstep, w *json.Encoder) (int, string
 			r.mu.Lock()
 			r.nbody[i]++ // bodies are numbered in the order they are spawned (the Decide step waits for the arrival)
 			n := r.nbody[i]
+			r.ctxs[i] = ctx
 			r.parkLocked(&park{name: "body.begin", i: i, n: n, g: g})
 			r.mu.Lock()
 			r.evs = append(r.evs, tev{Ev: "BodyBegin", I: i, N: n, Ts: int(time.Since(r.base) / time.Microsecond)})
@@ -452,8 +459,20 @@ func gatedWalk(t *testing.T, j gjob, walk []gstep, w *json.Encoder) (int, string
 			r.log(tev{Ev: "BodyEnd", I: i, N: n, Cx: cx})
 		}
 	}
+	// an invocation for which the walk has a Timeout step gets a short timeout (real timers cannot be gated: the
+	// deadline may pass earlier than the step, which changes nothing observable before the body ends); the others 24h
+	timeouts := map[int]time.Duration{}
+	for _, s := range walk {
+		if s.Act == "Timeout" {
+			timeouts[s.I] = 2 * time.Millisecond
+		}
+	}
 	for k := 1; k <= j.Invs; k++ {
 		i := k
+		timeout := 24 * time.Hour
+		if d, ok := timeouts[i]; ok {
+			timeout = d
+		}
 		wg.Add(1)
 		go func() {
 			defer wg.Done()
@@ -461,7 +480,7 @@ func gatedWalk(t *testing.T, j gjob, walk []gstep, w *json.Encoder) (int, string
 			r.mu.Lock()
 			r.inv[g] = i
 			r.mu.Unlock()
-			r.mgr.InvokeBackgroundTask(body(i), 24*time.Hour)
+			r.mgr.InvokeBackgroundTask(body(i), timeout)
 			r.mu.Lock()
 			r.parkLocked(&park{name: "drv.return", i: i, g: g})
 			r.log(tev{Ev: "Return", I: i})
@@ -573,18 +592,33 @@ func gatedWalk(t *testing.T, j gjob, walk []gstep, w *json.Encoder) (int, string
 				fail("select")
 				break
 			}
-			a, b := r.seen(from, "Notified", s.I), r.seen(from, "BodyDone", s.I)
-			if !r.waitFor(stepWait, func() bool { return a() || b() }) {
+			a, b, c := r.seen(from, "Notified", s.I), r.seen(from, "BodyDone", s.I), r.parkedAt(s.I, "task.Release")
+			if !r.waitFor(stepWait, func() bool { return a() || b() || c() }) {
 				fail("select")
 				break
 			}
 			r.mu.Lock()
+			noArm := !a() && !b()
 			other := (s.Act == "SelNotify" && !a()) || (s.Act == "SelDone" && !b())
 			r.mu.Unlock()
-			if other {
+			if noArm {
+				// the invocation left its select by neither of the two arms of the specification. Follow what the
+				// implementation does next (release, retry or return) so that the trace shows it, then stop the walk
+				fail("select-no-arm")
+				if _, ok := r.release(stepWait, "task.Release", s.I, 0); ok && r.waitFor(stepWait, r.parkedAt(s.I, "task.Load", "drv.return")) {
+					if _, ok := r.release(0, "drv.return", s.I, 0); ok {
+						r.waitFor(stepWait, r.seen(from, "Return", s.I))
+					}
+				}
+			} else if other {
 				fail("select-other-arm") // both arms were ready, Go chose the other one
 			} else if s.Act == "SelDone" && !r.waitFor(stepWait, r.parkedAt(s.I, "task.Release")) {
 				fail("seldone")
+			}
+		case "Timeout":
+			// the deadline of the ctx of i's current body passes
+			if !r.waitFor(stepWait, func() bool { c := r.ctxs[s.I]; return c != nil && c.Err() != nil }) {
+				fail("timeout")
 			}
 		case "AwaitBody":
 			if !r.waitFor(stepWait, r.parkedAt(s.I, "task.Release")) {
